@@ -10,6 +10,10 @@ CONSTANTS
   MaxQ = 2
   MaxId = 1
   KaVals = {0}
+  XQs = {}
+  XfrIds = {}
+  XfrAll = FALSE
+  QVars = {101, 201, 301, 401}
   EndKinds = {"eof", "short", "trunc", "wfail", "stall"}
   MaxOps = 9
   Frames <- GFrames
